@@ -823,6 +823,7 @@ def exec_table(spec):
         written.append(o)
     conv = ctx.conv([x for c in t.cols() for x in c] + written + [obj])
     names0 = t.column_names()
+    classes0 = [type(c).__name__ for c in t.cols()]
     err = None
     try:
         t[pykey] = obj
@@ -832,6 +833,11 @@ def exec_table(spec):
     w = {"fam": spec["fam"], "case": {"t0": t0, "key": wkey, "value": wval, "conv": conv}, "impl": {"err": err, "t1": t1}}
     if len(t) != nr or t.column_names() != names0:
         w["py_fail"] = "table assignment changed the row count or the column names"
+    elif err is not None and [type(c).__name__ for c in t.cols()] != classes0:
+        # a failed assignment leaves the table exactly as it was — including what kind of vector each column is (a date column
+        # that an earlier cell promoted to datetime must be a date column again: day arithmetic, ISO comparison)
+        w["py_fail"] = (f"the assignment failed ({err}) but the columns changed class from {classes0} to "
+                        f"{[type(c).__name__ for c in t.cols()]}")
     return w
 
 
